@@ -74,17 +74,17 @@ type Explorer struct {
 	visited  sync.Map
 	nvisited int64
 
-	paths    int64
-	steps    int64
-	obls     int64
-	ends     map[string]int
-	viols    map[string]*Violation
-	knownHit map[string]*Violation
-	reached  map[string]int
-	samples  []Sample
-	funcs    map[string]int64 // function -> instructions executed
-	stats    SolverStats
-	qlog     *queryLog
+	paths         int64
+	steps         int64
+	obls          int64
+	ends          map[string]int
+	viols         map[string]*Violation
+	knownHit      map[string]*Violation
+	reached       map[string]int
+	samples       []Sample
+	funcs         map[string]int64 // function -> instructions executed
+	stats         SolverStats
+	qlog          *queryLog
 	vectors       []nativeVector
 	wantNative    bool
 	symbolicToEnd map[string]bool
@@ -107,14 +107,14 @@ type Worker struct {
 	frozenObj   map[interface{}]frozenRef
 	tempRegions []tempRegion // digest-frozen regions of the current path (never reused)
 	exportCache map[*region]*exportCache
-	notes  map[string]map[string]bool // worker-local bookkeeping, merged into the explorer at the end
-	ex     *Explorer
-	solver *Solver
-	prefix []int
-	taken  []int
-	decls  []string // declarations made on the current path (name sort)
-	declSet map[string]bool
-	id     int
+	notes       map[string]map[string]bool // worker-local bookkeeping, merged into the explorer at the end
+	ex          *Explorer
+	solver      *Solver
+	prefix      []int
+	taken       []int
+	decls       []string // declarations made on the current path (name sort)
+	declSet     map[string]bool
+	id          int
 }
 
 func NewExplorer(prog *ssa.Program, cfg Config) *Explorer {
